@@ -36,6 +36,7 @@ CONSTANT Mutant       \* "none" | "attach_first" | "factory_per_segment" | "repl
                       \*        | "catch_index_only"  Delete._del_one read only IndexError of T[key] as missing
                       \*        | "tail_copies_value" the nested Assign of missing= re-evaluated the value (copy)
                       \*        | "tail_value_lost"   S-rooted destination + missing=: value written outside the tail
+                      \*        | "alias_lost"        a list met twice in a literal value is rebuilt as [] the 2nd time
                       \* state kept on the spec object between evaluations (must not exist):
                       \*        | "memo_split"        the split at the first absent segment is remembered
 
@@ -148,9 +149,50 @@ N0(c) == Len(c.heap0)
 Pre(c, h) == SubSeq(h, 1, N0(c))                 \* the cells that existed before the call
 
 \* value to assign: a literal, or Spec(path) / T... evaluated against the target
-ValOf(h, root, vs) ==
-  IF vs.k = "lit" THEN Ok(vs.v)
-  ELSE LET r == PathEval(h, root, vs.steps) IN IF r.ok THEN Ok(r.v) ELSE Exc(r.err)
+\* A literal value may be a container graph of exact dicts and lists given by vs.cells (its own
+\* little heap: references between its cells are [k: "vref", a], leaves are scalars or T paths
+\* [k: "t", steps]), vs.v = [k: "vref", a].  Argument mode stores a REBUILT container of the same
+\* type and shape: one fresh cell per value cell reachable from vs.v (numbered after the cells
+\* of h in depth-first order of first visit), equal contents, the same aliasing and cycles,
+\* T leaves replaced by what they denote on the target.  The literal itself is not touched.
+VRefsOf(cell) ==
+  LET vals == IF cell.cls \in MapClasses THEN [i \in 1..Len(cell.items) |-> cell.items[i][2]] ELSE cell.items
+  IN SelectSeq(vals, LAMBDA x : x.k = "vref")
+InSeq(x, sq) == \E i \in 1..Len(sq) : sq[i] = x
+PosIn(x, sq) == CHOOSE i \in 1..Len(sq) : sq[i] = x
+RECURSIVE VOrder(_, _, _)
+VOrder(cells, todo, seen) ==
+  IF todo = <<>> THEN seen
+  ELSE LET j == Head(todo).a IN
+       IF InSeq(j, seen) THEN VOrder(cells, Tail(todo), seen)
+       ELSE VOrder(cells, VRefsOf(cells[j]) \o Tail(todo), Append(seen, j))
+
+ValBuildM(h, root, vs, lose) ==     \* [ok, v, heap, exc]; lose: only for the mechanism mutant alias_lost
+  IF vs.k # "lit" THEN
+    LET r == PathEval(h, root, vs.steps) IN
+    IF r.ok THEN [ok |-> TRUE, v |-> r.v, heap |-> h, exc |-> ""] ELSE [ok |-> FALSE, v |-> VNone, heap |-> h, exc |-> r.err]
+  ELSE IF vs.v.k # "vref" THEN [ok |-> TRUE, v |-> vs.v, heap |-> h, exc |-> ""]
+  ELSE
+    LET order == VOrder(vs.cells, <<vs.v>>, <<>>)
+        base == Len(h)
+        lost == base + Len(order) + 1            \* mutant alias_lost: an empty list instead of the shared one
+        leaf(x) == CASE x.k = "vref" ->
+                          IF lose /\ vs.cells[x.a].cls = "list" THEN Ok(VRef(lost))
+                          ELSE Ok(VRef(base + PosIn(x.a, order)))
+                     [] x.k = "t" -> LET r == PathEval(h, root, x.steps) IN IF r.ok THEN Ok(r.v) ELSE Exc(r.err)
+                     [] OTHER -> Ok(x)
+        valsOf(j) == LET c == vs.cells[j] IN
+                     IF c.cls \in MapClasses THEN [i \in 1..Len(c.items) |-> c.items[i][2]] ELSE c.items
+        bad == \E i \in 1..Len(order) : \E k \in 1..Len(valsOf(order[i])) : ~leaf(valsOf(order[i])[k]).ok
+        copy(j) == LET c == vs.cells[j] IN
+                   IF c.cls \in MapClasses
+                   THEN Cell(c.cls, [i \in 1..Len(c.items) |-> <<c.items[i][1], leaf(c.items[i][2]).v>>])
+                   ELSE Cell(c.cls, [i \in 1..Len(c.items) |-> leaf(c.items[i]).v])
+        extra == IF lose THEN <<Cell("list", <<>>)>> ELSE <<>>
+    IN IF bad THEN [ok |-> FALSE, v |-> VNone, heap |-> h, exc |-> "PathAccessError"]
+       ELSE [ok |-> TRUE, v |-> VRef(base + 1), heap |-> h \o [i \in 1..Len(order) |-> copy(order[i])] \o extra, exc |-> ""]
+
+ValBuild(h, root, vs) == ValBuildM(h, root, vs, FALSE)
 
 \* what the law expects:  ok / err in {"", "PathAccessError", "PathDeleteError", "any"} /
 \* lenient (the statement fixes the heap but not whether an error is raised) / heap / v
@@ -160,13 +202,15 @@ Expect(ok, err, lenient, h, v) == [ok |-> ok, err |-> err, lenient |-> lenient, 
 \* step): cell N0+j is made by the j-th factory call and receives exactly one entry,
 \*   tmp_d[step_n] = val; tmp_{d-1}[step_{n-1}] = tmp_d; ... ; dest[step_b] = tmp_1
 RECURSIVE TailFill(_, _, _, _, _)
-TailFill(c, h, b, j, v) ==        \* fill cell N0+j .. N0+d innermost first; returns POk/PExc
-  LET d == NSteps(c) - b IN
+TailFill(c, h, b, j, v) ==        \* fill cell NB+j .. NB+d innermost first; returns POk/PExc
+  LET d == NSteps(c) - b
+      NB == Len(h) - d               \* the cells before the fresh tail (target + rebuilt value)
+  IN
   IF j > d THEN POk(h, <<>>)
   ELSE LET inner == TailFill(c, h, b, j + 1, v) IN
        IF ~inner.ok THEN inner
-       ELSE StoreOp(inner.heap, c.flags, VRef(N0(c) + j), c.steps[b + j],
-                    IF j = d THEN v ELSE VRef(N0(c) + j + 1))
+       ELSE StoreOp(inner.heap, c.flags, VRef(NB + j), c.steps[b + j],
+                    IF j = d THEN v ELSE VRef(NB + j + 1))
 
 \* ---- wildcards: the parents a path with '*' steps reaches, in order -------------------
 HasStar(steps) == \E i \in 1..Len(steps) : steps[i].op = "x"
@@ -192,31 +236,31 @@ FoldStore(c, h, dests, j, v) ==
        IF r.ok THEN FoldStore(c, r.heap, dests, j + 1, v) ELSE [ok |-> FALSE, heap |-> h]
 
 RefStarAssign(c) ==
-  LET v == ValOf(c.heap0, c.root, c.val)
+  LET v == ValBuild(c.heap0, c.root, c.val)
       fan == Fan(c.heap0, c.root, ParentSteps(c), 1)
   IN IF ~v.ok THEN Expect(FALSE, "any", FALSE, c.heap0, VNone)
      ELSE IF ~fan.ok THEN Expect(FALSE, "PathAccessError", FALSE, c.heap0, VNone)
-     ELSE LET r == FoldStore(c, c.heap0, fan.dests, 1, v.v) IN
+     ELSE LET r == FoldStore(c, v.heap, fan.dests, 1, v.v) IN
           IF r.ok THEN Expect(TRUE, "", FALSE, r.heap, c.root) ELSE Expect(FALSE, "any", FALSE, r.heap, VNone)
 
 RefPlainAssign(c) ==
   LET n == NSteps(c)
-      v == ValOf(c.heap0, c.root, c.val)
+      v == ValBuild(c.heap0, c.root, c.val)          \* v.heap = heap0 + the rebuilt literal (if any)
       par == PathEval(c.heap0, c.root, ParentSteps(c))
       failed == Expect(FALSE, "any", FALSE, c.heap0, VNone)
   IN IF ~v.ok THEN failed
      ELSE IF par.ok THEN
-       LET r == StoreOp(c.heap0, c.flags, par.v, c.steps[n], v.v) IN
+       LET r == StoreOp(v.heap, c.flags, par.v, c.steps[n], v.v) IN
        IF r.ok THEN Expect(TRUE, "", FALSE, r.heap, c.root) ELSE failed
      ELSE IF par.idx < 0 THEN failed
      ELSE IF c.missing = "none" THEN Expect(FALSE, "PathAccessError", FALSE, c.heap0, VNone)
      ELSE LET b == par.idx + 1                   \* first absent parent step (1-based)
               d == n - b                          \* absent segments = factory calls
               dest == PathEval(c.heap0, c.root, SubSeq(c.steps, 1, b - 1)).v
-              fresh == c.heap0 \o [j \in 1..d |-> Cell(c.missing, <<>>)]
+              fresh == v.heap \o [j \in 1..d |-> Cell(c.missing, <<>>)]
               tail == TailFill(c, fresh, b, 1, v.v)
           IN IF c.facfail \in 1..d \/ ~tail.ok THEN failed
-             ELSE LET r == StoreOp(tail.heap, c.flags, dest, c.steps[b], VRef(N0(c) + 1)) IN
+             ELSE LET r == StoreOp(tail.heap, c.flags, dest, c.steps[b], VRef(Len(v.heap) + 1)) IN
                   IF r.ok THEN Expect(TRUE, "", FALSE, r.heap, c.root) ELSE failed
 
 \* missing= together with wildcards is not specified by the statement: kept out of the universes
@@ -277,6 +321,13 @@ RefDelete(c) == IF HasStar(c.steps) THEN RefStarDelete(c) ELSE RefPlainDelete(c)
 
 Ref(c) == IF c.kind = "assign" THEN RefAssign(c) ELSE RefDelete(c)
 
+\* cells made during the call that nothing pre-existing refers to are garbage (a rebuilt literal
+\* value that a wildcard path with no match never stored): they are not part of the effect
+CellVals(cell) == IF cell.cls \in MapClasses THEN [i \in 1..Len(cell.items) |-> cell.items[i][2]] ELSE cell.items
+AttachesNew(c, h) == \E a \in 1..N0(c) : \E i \in 1..Len(CellVals(h[a])) :
+                        LET x == CellVals(h[a])[i] IN IsRef(x) /\ x.a > N0(c)
+Live(c, h) == IF AttachesNew(c, h) THEN h ELSE Pre(c, h)
+
 \* does an outcome (machine's or the library's) conform to the law's expectation?
 \* cls = class of the escaping error, v = returned value, h = heap afterwards
 ConformClause(c, e, ok, cls, v, h) ==
@@ -284,7 +335,7 @@ ConformClause(c, e, ok, cls, v, h) ==
   ELSE IF Len(h) < N0(c) THEN "heap-size"
   ELSE IF e.lenient THEN (IF Pre(c, h) # c.heap0 THEN "heap-changed" ELSE IF ok /\ v # e.v THEN "returned" ELSE "")
   ELSE IF ok # e.ok THEN (IF e.ok THEN "unexpected-error" ELSE "no-error")
-  ELSE IF e.ok THEN (IF v # e.v THEN "returned" ELSE IF h # e.heap THEN "heap-effect" ELSE "")
+  ELSE IF e.ok THEN (IF v # e.v THEN "returned" ELSE IF Live(c, h) # Live(c, e.heap) THEN "heap-effect" ELSE "")
   ELSE IF Pre(c, h) # Pre(c, e.heap) THEN "not-atomic"      \* e.heap = heap0 on wildcard-free paths
   ELSE IF e.err # "any" /\ cls # e.err THEN "error-class"
   ELSE ""
@@ -331,8 +382,8 @@ Finish(s, ok, mech) ==
 
 \* Assign.glomit: val = arg_val(target, self.val, scope)
 DoEvalVal(s) ==
-  LET v == ValOf(s.heap, s.case.root, s.case.val) IN
-  IF v.ok THEN AfterFetch([s EXCEPT !.val = v.v, !.pc = "fetch"]) ELSE Finish(s, FALSE, v.exc)
+  LET v == ValBuildM(s.heap, s.case.root, s.case.val, Mutant = "alias_lost") IN
+  IF v.ok THEN AfterFetch([s EXCEPT !.val = v.v, !.heap = v.heap, !.pc = "fetch"]) ELSE Finish(s, FALSE, v.exc)
 
 \* one segment of  dest = scope[glom](dest_target, dest_path, scope)
 DoFetch(s) ==
@@ -462,7 +513,7 @@ NeverReplaced == pc = "done" /\ out.ok /\ case.kind = "assign" /\ nfac > 0 => Ke
 \* reading the path afterwards yields the value (targets without cycles through the path)
 ReadBack == pc = "done" /\ out.ok /\ case.kind = "assign" /\ Plain =>
               LET r == PathEval(heap, case.root, case.steps)
-                  v == ValOf(case.heap0, case.root, case.val)
+                  v == ValBuild(case.heap0, case.root, case.val)
               IN r.ok /\ r.v = v.v
 \* a failed or ignored delete, and everything but the addressed entry, leaves cells as they were
 DelFrame == pc = "done" /\ case.kind = "delete" /\ Plain =>
